@@ -439,13 +439,25 @@ def _launch_job(args):
         c._launchers  = {'VERIF': L()}
         c._stage_in   = bad(None) if mode == 'stage' else \
                         (lambda pilot, sds: None)
+        late = bool(cancelled) and cancelled[0] == 'late'
+        if late:
+            cancelled = cancelled[1:]
         c._cancelled  = [pilots[i]['uid'] for i in cancelled]
+        named_cancel  = list(c._cancelled)
         c._pilots.clear()
         replay = {'part': 'c', 'case': [list(map(list, targets)),
                                         list(map(list, failing)), mode,
                                         list(cancelled)]}
         try:
-            c.work(copy.deepcopy(pilots))
+            if late:
+                # the request is there before the pilot: a bulk without the
+                # pilot is handled first, then the bulk with it
+                rest = [p for p in pilots if p['uid'] not in named_cancel]
+                mine = [p for p in pilots if p['uid'] in named_cancel]
+                c.work(copy.deepcopy(rest))
+                c.work(copy.deepcopy(mine))
+            else:
+                c.work(copy.deepcopy(pilots))
             exc = None
         except Exception as e:
             exc = e
@@ -454,14 +466,15 @@ def _launch_job(args):
         for p in pilots:
             uid  = p['uid']
             seen = [s for u, s in log if u == uid]
-            if uid in c._cancelled:
+            if uid in named_cancel:
                 want = [rps.CANCELED]
             elif where[uid] in failing:
                 want = [rps.PMGR_LAUNCHING, rps.FAILED]
             else:
                 want = [rps.PMGR_LAUNCHING, rps.PMGR_ACTIVE_PENDING]
             if seen != want or exc is not None:
-                role = 'cancelled' if uid in c._cancelled else \
+                role = ('cancelled-late' if late else 'cancelled') \
+                       if uid in named_cancel else \
                        'failing' if where[uid] in failing else 'healthy'
                 part.violation('launch-outcome|PMGRLaunchingComponent.work|'
                                '%s:%s:%s' % (mode, role, '>'.join(
@@ -496,8 +509,10 @@ def _launch_cases():
                         for mode in ('launch', 'stage'):
                             if not failing and mode == 'stage':
                                 continue
-                            for cancelled in ((), (0,)):
+                            for cancelled in ((), (0,), ('late', 0)):
                                 if cancelled and k == 1 and failing:
+                                    continue
+                                if cancelled[:1] == ('late',) and k == 1:
                                     continue
                                 out.append((targets, failing, mode, cancelled))
         _lcases = out
